@@ -158,6 +158,7 @@ const emptyNameAfterDot = "empty-name-from-operator-after-dot"
 // operators replaced by a plain name the statement passes the oracle (directly or through other known findings).
 func emptyNameAfterDotExplains(sql string, r rtResult, known func(string) bool) bool {
 	toks := lexemes(sql)
+	orig := append([]string(nil), toks...)
 	changed := 0
 	for i := 1; i < len(toks); i++ {
 		if (toks[i] == "&&" || toks[i] == "||") && toks[i-1] == "." {
@@ -168,7 +169,7 @@ func emptyNameAfterDotExplains(sql string, r rtResult, known func(string) bool) 
 	if changed == 0 {
 		return false
 	}
-	r2 := roundTrip(strings.Join(toks, " "))
+	r2 := roundTrip(respell(sql, orig, toks))
 	if r2.Stage == "reject" || reflect.TypeOf(r2.T1) != reflect.TypeOf(r.T1) {
 		return false
 	}
@@ -180,6 +181,7 @@ func emptyNameAfterDotExplains(sql string, r rtResult, known func(string) bool) 
 // every ? replaced by 1 the statement passes the oracle (directly or through other known findings).
 func positionalArgInDDLExplains(sql string, r rtResult, known func(string) bool) bool {
 	toks := lexemes(sql)
+	orig := append([]string(nil), toks...)
 	changed := 0
 	for i := range toks {
 		if toks[i] == "?" {
@@ -190,11 +192,40 @@ func positionalArgInDDLExplains(sql string, r rtResult, known func(string) bool)
 	if changed == 0 {
 		return false
 	}
-	r2 := roundTrip(strings.Join(toks, " "))
+	r2 := roundTrip(respell(sql, orig, toks))
 	if r2.Stage == "reject" || reflect.TypeOf(r2.T1) != reflect.TypeOf(r.T1) {
 		return false
 	}
-	return r2.Stage == "" || placeholderFinding(r2) != "" && known(placeholderFinding(r2)) || len(attribute(r2.T1, known)) > 0 || known(mysqlRawNames) && mysqlRawNamesExplains(strings.Join(toks, " "), r2, known)
+	return r2.Stage == "" || placeholderFinding(r2) != "" && known(placeholderFinding(r2)) || len(attribute(r2.T1, known)) > 0 || known(mysqlRawNames) && mysqlRawNamesExplains(respell(sql, orig, toks), r2, known)
+}
+
+// respell rewrites sql with lexeme i spelled repl[i] instead of orig[i]; everything between the lexemes (blanks, comments,
+// stray bytes) stays as it is, so the rewritten text differs from the input in the replaced lexemes only.
+func respell(sql string, orig, repl []string) string {
+	var sb strings.Builder
+	pos := 0
+	for i, tk := range orig {
+		j := strings.Index(sql[pos:], tk)
+		if j < 0 {
+			return strings.Join(repl, " ")
+		}
+		sb.WriteString(sql[pos : pos+j])
+		pos += j + len(tk)
+		if repl[i] == tk {
+			sb.WriteString(tk)
+			continue
+		}
+		// a respelled lexeme must stay a lexeme of its own: blanks where it would run into a neighbouring word or quote
+		if n := sb.Len(); n > 0 && j == 0 {
+			sb.WriteByte(' ')
+		}
+		sb.WriteString(repl[i])
+		if pos < len(sql) && (isWordByte(sql[pos]) || sql[pos] == '`' || sql[pos] == '"' || sql[pos] == '\'' || sql[pos] >= 0x80) {
+			sb.WriteByte(' ')
+		}
+	}
+	sb.WriteString(sql[pos:])
+	return sb.String()
 }
 
 const mysqlRawNames = "mysql-ddl-set-show-names-printed-raw"
@@ -212,6 +243,7 @@ func mysqlRawNamesExplains(sql string, r rtResult, known func(string) bool) bool
 		return false
 	}
 	toks := lexemes(sql)
+	orig := append([]string(nil), toks...)
 	changed := 0
 	for i, tk := range toks {
 		switch {
@@ -237,7 +269,7 @@ func mysqlRawNamesExplains(sql string, r rtResult, known func(string) bool) bool
 	if changed == 0 {
 		return false
 	}
-	r2 := roundTrip(strings.Join(toks, " "))
+	r2 := roundTrip(respell(sql, orig, toks))
 	if r2.Stage == "reject" || reflect.TypeOf(r2.T1) != reflect.TypeOf(r.T1) {
 		return false
 	}
@@ -280,16 +312,21 @@ func sortStrings(a []string) {
 	}
 }
 
-func TestC30(t *testing.T) {
-	rec = ev.New("C30", "exploration",
+func newRec() *ev.Rec {
+	return ev.New("C30", "exploration",
 		"corpus_exact: every statement of the corpus as it stands (complete): ~155 statements written after sql.y (every top-level command of the grammar - SELECT/UNION/WITH/STREAM, INSERT/REPLACE/UPDATE/DELETE, SET, transactions, USE, SHOW, CREATE/ALTER/RENAME/DROP/TRUNCATE/ANALYZE/FLUSH, vschema DDL, EXPLAIN/DESCRIBE/REPAIR/OPTIMIZE/LOCK - and every OctoSQL extension) plus every string literal of parser/sqlparser/*_test.go, every quoted query of tests/scenarios/**/*.in and of README.md that the parser accepts (harvested at start; absent files tolerated). "+
 			"grammar: statements from a text-producing grammar generator (depth <= 3, random keyword case, optional blanks): SELECT [DISTINCT] items (expr [AS] alias / 'string alias', *, t.*, expr->*) FROM table refs (names, paths like ./f.json and a/b.csv, quoted names, aliases, index hints, subqueries, parenthesised lists, table valued functions with name=>expr / name=>TABLE(ref) / name=>DESCRIPTOR(col) arguments and [AS] alias, [LOOKUP|STREAM] [INNER|CROSS] JOIN, LEFT/RIGHT [OUTER]/OUTER JOIN, NATURAL joins, STRAIGHT_JOIN, ON / USING), WHERE, GROUP BY, HAVING, TRIGGER lists (COUNTING e, ON WATERMARK, ON END OF STREAM, AFTER DELAY e), ORDER BY, LIMIT forms, WITH (1-2 CTEs), UNION forms; expressions: literals (ints beyond int64, floats, strings with quotes/backslashes/tab/newline, hex, bit, ?), columns with qualifiers, arithmetic/bit operators, unary - + ~ !, tuples, subqueries, INTERVAL e unit, function calls (DISTINCT, *), e[e], e::type incl. [] and {}, e->field, CASE, CAST/CONVERT, COLLATE, keyword functions, AND/OR/NOT, IS ..., comparisons, [NOT] IN (list|subquery|::), [NOT] LIKE [ESCAPE], ~ ~* !~ !~*, [NOT] REGEXP, [NOT] BETWEEN, EXISTS. "+
 			"corpus_case_exact: every corpus statement with all its words (keywords and identifiers; quoted names, strings, comments untouched) in UPPER, lower, aLtErNaTiNg and Title case (complete); case_variants: a corpus statement (2/3) or a generated one (1/3) with one case style for the statement or an independently drawn style per word - keywords are case-insensitive, so these are statements the parser must treat alike, and the oracle is the same round trip. mutations: (a quarter of the bases re-cased first) 1-3 token-level edits (delete, duplicate, swap, replace by a random token or by one of the same class, insert, splice a stretch of another statement, delete a stretch) of a corpus statement or a generated one, re-joined with or without blanks. Inputs that sqlparser.Parse rejects are discarded (counted in `discarded`). "+
 			"oracle: s2 = String(Parse(s1)) must parse; Parse(s2) must equal Parse(s1) under a reflection walk over every field (exported or not) that ignores only fields named Metadata (analyzer placeholders), ColIdent's lowered cache and blank fields, and identifies nil and empty slices; and String(Parse(s2)) == s2. A panic while printing is a violation. "+
+			"native_fuzz (thorough tier only): go test -fuzz over the statement text, seeded with the corpus; inputs that are not valid UTF-8, longer than 2000 bytes or rejected by the parser are discarded; same oracle. "+
 			"non-trivial: the statement uses >= 1 OctoSQL extension (by token kind: TRIGGER and trigger kinds, =>, DESCRIPTOR, LOOKUP, ->, ->*, ::, [], {}, [, ~ ~* !~ !~*, WITH; or by node: STREAM JOIN, OUTER JOIN, TABLE() argument, ON END OF STREAM). distinct = sequence of token kinds of the input",
 		"sqlparser.Parse is the acceptance criterion (it also accepts partially parsed DDL, as octosql's callers get it)",
 		"tree equality is on the parser's own AST; two spellings that the parser maps to one tree (JOIN / INNER JOIN / CROSS JOIN, CAST / CONVERT / ::, create view / create table ...) are the same tree and not distinguished",
 	)
+}
+
+func TestC30(t *testing.T) {
+	rec = newRec()
 	c := corpus()
 	rec.SetExtra("corpus_sizes", c.bySource)
 	ev.Enumerate(t, rec, "corpus_exact", func(yield func(c30Case) bool) {
@@ -333,6 +370,7 @@ func TestC30(t *testing.T) {
 		}
 		return c30Case{mutate(t, base, other)}
 	}, c30Prop)
+	ev.ReplayOnly(t, rec, "native_fuzz", c30Prop)
 }
 
 var _ = fmt.Sprint
